@@ -137,31 +137,52 @@ theorem C18_backtrace_frames (f : Fiber) (hr : running f = true) (ip : Nat) (bot
     exact LinesUnwind.setIp_take _ _ _ _ (by omega)
   · rw [h6, List.map_take, List.map_take]; simp [storeIp, LinesUnwind.setIp_map_fn]
 
-/-- **C18_traceback_frames.**  With no handler on the fiber the error is unhandled and `print_error`
-sees exactly the frames of the moment of the raise (so, by `C18_saved_ip_line`, every line of the
-traceback is the line of the suspended call / the raising instruction). -/
-theorem C18_traceback_frames (f : Fiber) (hh : f.handlers = []) (ip : Nat) (ds : List (Bool × Nat)) :
+/-- The generated row of `Fiber::print_error` the model follows: a frame is reported with the ip
+saved in `backtrace_ips` when the search for a handler has reached it, with its own ip otherwise.
+Re-opens (together with `C18_traceback_frames`) when `print_error` reads another ip. -/
+theorem C18_traceback_ip_source : tracebackIpSource = .savedElseLive := rfl
+
+/-- **C18_traceback_frames.**  Let a normally running fiber raise while the instruction pointer of
+its top frame is `ip`.  However many catch clauses decline the error on the way (each runs
+`ContinueUnwind` somewhere inside its clause, after `stack_unwind` redirected the ip of the frame it
+lives in — that frame's *own* ip is lost), if the error ends unhandled then `print_error` reports
+exactly the frames of the moment of the raise: every active call, innermost first, each as
+(function, `ip − 1`) with the ip it had **when the error was raised** — so, by `C18_saved_ip_line`,
+every line of the traceback is the line of the suspended call / the raising instruction.  The text
+written to stderr is the one `print_error` would have written at the moment of the raise. -/
+theorem C18_traceback_frames (f : Fiber) (hr : running f = true) (ip : Nat)
+    (ds : List (Bool × Nat)) (f' : Fiber) (h : unwindRun none f ip ds = .uncaught f') :
+    tracebackEntries f' = ((storeIp f ip).frames.reverse.map fun fr => (fr.fn, reportOffset fr.ip)) ∧
+    ∀ funs cls msg, printError funs f' cls msg = printError funs (storeIp f ip) cls msg := by
+  simp only [running, Bool.and_eq_true, List.isEmpty_iff, decide_eq_true_eq] at hr
+  obtain ⟨⟨hb, hcur⟩, hs⟩ := hr
+  have hlen : (storeIp f ip).frames.length = f.frames.length := by simp [storeIp, LinesUnwind.setIp_length]
+  have pre := LinesUnwind.pre_initial (storeIp f ip) (by rw [hlen]; exact hs) (by simpa [storeIp] using hb)
+  obtain ⟨d', -, pre'⟩ := LinesUnwind.unwindFrom_uncaught _ none ds _ _ pre f' h
+  have e1 := LinesUnwind.pre_traceback _ _ _ pre'
+  have e0 := LinesUnwind.pre_traceback _ _ _ pre
+  refine ⟨e1, fun funs cls msg => ?_⟩
+  simp only [printError, e1, e0]
+
+/-- With no handler on the fiber nothing is touched at all: `print_error` runs on the fiber as the
+raise left it. -/
+theorem C18_traceback_no_handler (f : Fiber) (hh : f.handlers = []) (ip : Nat) (ds : List (Bool × Nat)) :
     unwindRun none f ip ds = .uncaught (storeIp f ip) := by
   have : stackUnwind (storeIp f ip) none = .unhandled := by simp [stackUnwind, storeIp, hh]
   cases ds with
   | nil => simp [unwindRun, unwindFrom, this]
   | cons d ds => obtain ⟨m, i⟩ := d; cases m <;> simp [unwindRun, unwindFrom, this]
 
-/-- **C18_traceback_frames_partial.**  In general (catch clauses that declined the error on the
-way) the traceback still lists every active call in order with its function, and the frames below
-the outermost declining clause's frame with their raise-time ip; the frames that own a declining
-clause do *not* keep their ip (`C18_witness_traceback_after_declined_catch`). -/
-theorem C18_traceback_frames_partial (f : Fiber) (hr : running f = true) (ip : Nat)
+/-- An unhandled error keeps every frame in place (nothing is truncated), with its function. -/
+theorem C18_traceback_all_frames (f : Fiber) (hr : running f = true) (ip : Nat)
     (ds : List (Bool × Nat)) (f' : Fiber) (h : unwindRun none f ip ds = .uncaught f') :
-    f'.frames.map Frame.fn = f.frames.map Frame.fn ∧
-    ∃ d, 1 ≤ d ∧ f'.frames.take (d - 1) = (storeIp f ip).frames.take (d - 1) ∧
-      (f.handlers = [] → f' = storeIp f ip) := by
+    f'.frames.map Frame.fn = f.frames.map Frame.fn := by
   simp only [running, Bool.and_eq_true, List.isEmpty_iff, decide_eq_true_eq] at hr
   obtain ⟨⟨hb, hcur⟩, hs⟩ := hr
   have hlen : (storeIp f ip).frames.length = f.frames.length := by simp [storeIp, LinesUnwind.setIp_length]
   have pre := LinesUnwind.pre_initial (storeIp f ip) (by rw [hlen]; exact hs) (by simpa [storeIp] using hb)
-  obtain ⟨h1, d, -, h3, h4, h5⟩ := LinesUnwind.unwindFrom_uncaught _ none ds _ _ pre f' h
-  exact ⟨by rw [h1]; simp [storeIp, LinesUnwind.setIp_map_fn], d, h3, h4, fun hn => h5 (by simpa [storeIp] using hn)⟩
+  obtain ⟨d', -, pre'⟩ := LinesUnwind.unwindFrom_uncaught _ none ds _ _ pre f' h
+  rw [pre'.fns]; simp [storeIp, LinesUnwind.setIp_map_fn]
 
 /-! ### errors and exits that cross natives (nested interpreter loops) -/
 
@@ -183,12 +204,19 @@ theorem C18_nested_catch_above_bottom (f : Fiber) (hr : running f = true) (ip b 
 frame and the loop of `Vm::run` (`bottoms`: the frame counts they recorded, innermost first), the
 error that travels out through them — each nested loop stops at its bottom, the native returns the
 error, the calling loop unwinds on — ends exactly as one uninterrupted search over the fiber does:
-same catching clause, same captured backtrace, same frames for `print_error`.  Hence
-`C18_backtrace_frames` and `C18_traceback_frames(_partial)` hold for errors that cross natives
-(`iter.each`, `List.sort`, `print` → `str()`, lazy iterators, …). -/
+same catching clause, same captured backtrace, same fiber for `print_error`.  Hence
+`C18_backtrace_frames` and `C18_traceback_frames` hold for errors that cross natives
+(`iter.each`, `List.sort`, `print` → `str()`, lazy iterators, …): `C18_traceback_across_natives`. -/
 theorem C18_unwind_across_natives (bottoms : List Nat) (f : Fiber) (ip : Nat) (ds : List (Bool × Nat)) :
     unwindLoops bottoms (storeIp f ip) ds = unwindRun none f ip ds :=
   LinesUnwind.unwindLoops_eq bottoms _ ds
+
+/-- `C18_traceback_frames` for an error that crosses any number of natives on its way out. -/
+theorem C18_traceback_across_natives (bottoms : List Nat) (f : Fiber) (hr : running f = true) (ip : Nat)
+    (ds : List (Bool × Nat)) (f' : Fiber) (h : unwindLoops bottoms (storeIp f ip) ds = .uncaught f') :
+    tracebackEntries f' = ((storeIp f ip).frames.reverse.map fun fr => (fr.fn, reportOffset fr.ip)) := by
+  rw [C18_unwind_across_natives] at h
+  exact (C18_traceback_frames f hr ip ds f' h).1
 
 /-! ### C18_status -/
 
@@ -329,13 +357,40 @@ example : unwindRun none exFiber 9 [(false, 58), (true, 0)] =
     .caught [(3, 8), (2, 29), (1, 11), (0, 39)]
       { frames := [⟨0, 70⟩], handlers := [⟨70, 1⟩], backtraceIps := [], cur := 0 } := by decide
 
-/-- **Witness of a genuine defect** (known finding D181): when every clause declines, the error is
-unhandled and `print_error` reads the frames' *current* ips: frame 2 — whose clause declined — is
-printed with ip 58 (a position inside its catch clause) instead of 30 (its suspended call). -/
-theorem C18_witness_traceback_after_declined_catch :
+/-- When every clause declines, the error is unhandled.  The *own* ip of frame 2 — whose clause
+declined — now points into its catch clause (58, where `ContinueUnwind` ran; the frame the raise
+left at 9 is untouched), its suspended call (30) survives in the capture buffer … -/
+example :
     unwindRun none { exFiber with handlers := [⟨50, 3⟩] } 9 [(false, 58)] =
       .uncaught { frames := [⟨0, 40⟩, ⟨1, 12⟩, ⟨2, 58⟩, ⟨3, 9⟩], handlers := [], backtraceIps := [9, 30], cur := 2 } := by
   decide
+/-- … and `print_error` reports frame 2 at 30 − 1, its suspended call (repaired finding D181: it
+used to read the frame's own ip and reported 58 − 1, a position inside the catch clause); the frames
+the search never reached (1 and 0) are reported from their own ip. -/
+example :
+    tracebackEntries { frames := [⟨0, 40⟩, ⟨1, 12⟩, ⟨2, 58⟩, ⟨3, 9⟩], handlers := [], backtraceIps := [9, 30], cur := 2 } =
+      [(3, 8), (2, 29), (1, 11), (0, 39)] := by decide
+/-- two nested `try` in frame 2 both decline (their `ContinueUnwind`s at 58 and 66), then one in
+frame 1: each frame is captured once, when the search first reaches it -/
+example :
+    (match unwindRun none { exFiber with handlers := [⟨50, 3⟩, ⟨60, 3⟩, ⟨20, 2⟩] } 9 [(false, 58), (false, 66), (false, 25)] with
+     | .uncaught f' => some (f'.frames, tracebackEntries f')
+     | _ => none) =
+      some ([⟨0, 40⟩, ⟨1, 25⟩, ⟨2, 66⟩, ⟨3, 9⟩], [(3, 8), (2, 29), (1, 11), (0, 39)]) := by decide
+
+/-- **Witness of a genuine defect** (known finding D186): the class expression of frame 2's catch
+clause is not a subclass of `Error`.  `CheckHandler` (behind byte 52 of the clause) calls
+`error_while_handling` — pop the handler, clear the capture buffer — and raises `TypeError` from
+frame 2; the frames above it, abandoned by the unwind of the first error, are still on the fiber
+(only `finish_unwind` truncates), so the traceback of the `TypeError` starts with function 3 at the
+raise site of the *first* error. -/
+theorem C18_witness_filter_error_keeps_abandoned_frames :
+    (match stackUnwind (storeIp { exFiber with handlers := [⟨50, 3⟩] } 9) none with
+     | .potentiallyHandled f1 =>
+       (match unwindFrom none (storeIp (errorWhileHandling f1) 53) [] with
+        | .uncaught g => some (tracebackEntries g)
+        | _ => none)
+     | _ => none) = some [(3, 8), (2, 52), (1, 11), (0, 39)] := by decide
 
 example : status (.exitCall (some 42) 0) = some (42, .RuntimeError) := by rfl
 example : status (.exitCall (some 0) 0) = some (0, .Ok) := by rfl
@@ -353,22 +408,12 @@ example : unwindLoops [1] (storeIp { frames := [⟨0, 40⟩, ⟨1, 5⟩], handle
 example : unwindRun (some 1) { frames := [⟨0, 40⟩, ⟨1, 5⟩], handlers := [⟨20, 2⟩], backtraceIps := [], cur := 1 } 9 [(true, 0)]
     = .caught [(1, 8)] { frames := [⟨0, 40⟩, ⟨1, 20⟩], handlers := [⟨20, 2⟩], backtraceIps := [], cur := 1 } := by decide
 
-/-- The property's demand on tracebacks at full strength: whatever happened on the way, an
-unhandled error is printed from the frames as they were when it was raised. -/
-def C18_traceback_full : Prop :=
-  ∀ (f : Fiber), running f = true → ∀ (ip : Nat) (ds : List (Bool × Nat)) (f' : Fiber),
-    unwindRun none f ip ds = .uncaught f' → f'.frames = (storeIp f ip).frames
+/-! `C18_traceback_frames` and `C18_backtrace_frames` speak about an error raised by a *running*
+fiber.  The one error raised while a search is in progress — `CheckHandler`'s `TypeError` for a
+class filter that is no subclass of `Error` — starts from `errorWhileHandling`, which is not a
+running state (frames above the handler's frame are still there): open finding D186, witness above.
 
-/-- It does not hold of the code that exists (known finding D181); what holds is
-`C18_traceback_frames` (no handler met) and `C18_traceback_frames_partial`. -/
-theorem C18_traceback_full_fails : ¬ C18_traceback_full := by
-  intro h
-  have := h { exFiber with handlers := [⟨50, 3⟩] } (by decide) 9 [(false, 58)] _
-    C18_witness_traceback_after_declined_catch
-  revert this
-  decide
-
-/-! Not proved here (sampled by the program-level stream instead): that the compiler attaches to
+Not proved here (sampled by the program-level stream instead): that the compiler attaches to
 each call / raise instruction a line inside the source span of that expression, and that the ip the
 VM saves always satisfies the hypothesis of `C18_saved_ip_line`. -/
 
